@@ -373,6 +373,7 @@ class Interp:
         self.depth = 0
         self.steps = 0
         self.call_stack: List[str] = []
+        self.yield_sinks: List[List[Any]] = []
 
     # ---------------------------------------------------------------- path driver
     def run_paths(self, fn: Callable[['Interp'], Any]) -> List[PathResult]:
@@ -384,6 +385,7 @@ class Interp:
             self.depth = 0
             self.steps = 0
             self.call_stack = []
+            self.yield_sinks = []
             if hasattr(self.hooks, 'reset'):
                 self.hooks.reset(self)  # type: ignore[attr-defined]
             try:
@@ -445,6 +447,8 @@ class Interp:
                 return not self.truth(v.args[0])
             if isinstance(v, App) and v.op == 'const_truth':
                 return bool(v.args[0])
+            if isinstance(v, App) and v.op == 'bool' and len(v.args) == 1:
+                return self.truth(v.args[0])
             k = vkey(v)
             if k in self.memo:
                 return self.memo[k]
@@ -482,8 +486,16 @@ class Interp:
         if isinstance(st, ast.Expr):
             if isinstance(st.value, ast.Constant):
                 return
-            if isinstance(st.value, (ast.Yield, ast.YieldFrom)):
-                raise Unsupported(f'yield in interpreted function {self.call_stack[-1:]}')
+            if isinstance(st.value, ast.Yield):
+                if not self.yield_sinks:
+                    raise Unsupported(f'yield outside generator call {self.call_stack[-1:]}')
+                self.yield_sinks[-1].append(self.eval(st.value.value, env) if st.value.value is not None else None)
+                return
+            if isinstance(st.value, ast.YieldFrom):
+                if not self.yield_sinks:
+                    raise Unsupported(f'yield outside generator call {self.call_stack[-1:]}')
+                self.yield_sinks[-1].extend(self.iterate(self.eval(st.value.value, env), st))
+                return
             self.eval(st.value, env)
         elif isinstance(st, ast.Assign):
             v = self.eval(st.value, env)
@@ -606,6 +618,10 @@ class Interp:
                     break
                 # loop conditions are re-evaluated: forget the previous decision of an identical term
                 self.memo.pop(vkey(c), None)
+                inner = c
+                while isinstance(inner, App) and inner.op in ('not', 'bool') and inner.args:
+                    inner = inner.args[0]
+                    self.memo.pop(vkey(inner), None)
             t = self.truth(c)
             if not t:
                 self.exec_block(st.orelse, env)
@@ -912,7 +928,9 @@ class Interp:
         v = self.eval(node.operand, env)
         if isinstance(node.op, ast.Not):
             if isinstance(v, (Sym, App)):
-                return not self.truth(v)
+                if isinstance(v, App) and v.op == 'not':
+                    return v.args[0] if isinstance(v.args[0], App) and v.args[0].op in self.BOOL_OPS else App('bool', v.args[0])
+                return App('not', v)  # decided where it is used (if / while / and / or)
             return not self.truth(v)
         if is_prim(v):
             try:
@@ -978,6 +996,7 @@ class Interp:
             return App('fmt%', a, b)
         return App('op:' + name, a, b)
 
+    BOOL_OPS = {'==', '<', '<=', '>', '>=', 'in', 'is', 'not', 'isinstance', 'eq'}
     CMP = {'Eq': '==', 'NotEq': '!=', 'Lt': '<', 'LtE': '<=', 'Gt': '>', 'GtE': '>=', 'In': 'in', 'NotIn': 'not in',
            'Is': 'is', 'IsNot': 'is not'}
 
@@ -1339,7 +1358,7 @@ class Interp:
             fnode = fr.lam
             mod = fr.module
             qual = '<local>.' + getattr(fnode, 'name', '<lambda>')
-            if isinstance(fnode, ast.FunctionDef) and (qual in self.call_stack or self.depth >= self.max_depth + 4):
+            if isinstance(fnode, ast.FunctionDef) and (self.call_stack.count(qual) >= self.max_recursion or self.depth >= self.max_depth + 4 + self.max_recursion):
                 return self.opaque_call(qual, list(args), kwargs)
         env = Env(mod, fr.closure, fr.fi.cls if fr.fi else None)
         a = ([fr.self_val] if fr.bound else []) + list(args)
@@ -1368,40 +1387,17 @@ class Interp:
         out: List[Any] = []
         self.depth += 1
         self.call_stack.append(fr.fi.qualname)
+        self.yield_sinks.append(out)
         try:
             try:
-                self._exec_gen_block(fnode.body, env, out)
+                self.exec_block(fnode.body, env)
             except _Return:
                 pass
         finally:
+            self.yield_sinks.pop()
             self.depth -= 1
             self.call_stack.pop()
         return out
-
-    def _exec_gen_block(self, body, env, out):
-        for st in body:
-            if isinstance(st, ast.Expr) and isinstance(st.value, ast.Yield):
-                out.append(self.eval(st.value.value, env) if st.value.value is not None else None)
-            elif isinstance(st, ast.Expr) and isinstance(st.value, ast.YieldFrom):
-                out.extend(self.iterate(self.eval(st.value.value, env), st))
-            elif isinstance(st, ast.If) and _has_yield(st):
-                if self.truth(self.eval(st.test, env)):
-                    self._exec_gen_block(st.body, env, out)
-                else:
-                    self._exec_gen_block(st.orelse, env, out)
-            elif isinstance(st, ast.For) and _has_yield(st):
-                for item in self.iterate(self.eval(st.iter, env), st):
-                    self.assign(st.target, item, env)
-                    try:
-                        self._exec_gen_block(st.body, env, out)
-                    except _Break:
-                        break
-                    except _Continue:
-                        continue
-            elif _has_yield(st):
-                raise Unsupported(f'yield inside {type(st).__name__}')
-            else:
-                self.exec_stmt(st, env)
 
     def bind_params(self, a: ast.arguments, args: List[Any], kwargs: Dict[str, Any], env: Env, fr: FuncRef) -> None:
         params = [p.arg for p in a.posonlyargs + a.args]
